@@ -226,6 +226,8 @@ static void set_good(ASock &as, Rng &r, const char *phase) {
     // now and then a value XCM's own range check admits but the kernel refuses (Linux: idle/interval <= 32767, count <= 127)
     bool beyond_kernel = r.chance(0.12) && w.kind == 0 && std::string(w.name) != "tcp.user_timeout";
     if (beyond_kernel) v = std::string(w.name) == "tcp.keepalive_count" ? 128 + (int64_t)r.below(1000) : 32768 + (int64_t)r.below(100000);
+    // the user timeout is handed to the kernel in milliseconds: values around the point where that no longer fits an int
+    if (std::string(w.name) == "tcp.user_timeout" && r.chance(0.15)) { static const int64_t edge[] = {2147483, 2147484, 4294968, 2000000000, 2147483647}; v = edge[r.below(5)]; }
     Snap before = snapshot(x);
     int rc, e;
     {
@@ -236,6 +238,8 @@ static void set_good(ASock &as, Rng &r, const char *phase) {
     }
     G->count("probe.attr_good_set");
     G->logf("set %s=%lld on %s during %s -> %d %s", w.name, (long long)v, x->label.c_str(), phase, rc, rc < 0 ? strerror(e) : "");
+    if (rc == 0 && std::string(w.name) == "tcp.user_timeout" && v * 1000 > 2147483647LL)
+        G->violation("C10.bad_value_accepted", "%s: xcm_attr_set(\"tcp.user_timeout\", %lld) during %s succeeded although the value cannot be represented in the milliseconds the kernel option takes", x->label.c_str(), (long long)v, phase);
     if (rc == 0) { Expect &ex = as.exp[w.name]; ex.have = true; ex.i = v; ex.b = v != 0; return; }
     // refused (e.g. the kernel rejected the value on a connected socket): nothing may have changed
     Snap after = snapshot(x);
